@@ -98,7 +98,22 @@ func (mw MeshWriter) Write(mesh modeling.Mesh, writer io.Writer) error {
 			})
 		}
 		for _, p := range mesh.Float2Attributes() {
-			if claimedV2[p] || p == modeling.TexCoordAttribute {
+			if claimedV2[p] {
+				continue
+			}
+
+			if p == modeling.TexCoordAttribute {
+				// Triangle meshes carry their texture coordinates per corner in
+				// the face element; anything else has no face element, so the
+				// coordinates are written per vertex as "s" and "t".
+				if mesh.Topology() != modeling.TriangleTopology {
+					writers = append(writers, Vector2PropertyWriter{
+						ModelAttribute: p,
+						Type:           Float,
+						PlyPropertyX:   "s",
+						PlyPropertyY:   "t",
+					})
+				}
 				continue
 			}
 			writers = append(writers, Vector2PropertyWriter{
